@@ -14,6 +14,7 @@ Statement or call shapes that are not understood raise ExtractError: the tie is
 broken loudly, nothing is skipped.  Files are rewritten only when they change.
 """
 import ast
+import builtins
 import json
 import os
 import re
@@ -21,6 +22,9 @@ import sys
 
 HERE = os.path.dirname(os.path.dirname(os.path.abspath(__file__)))
 sys.path.insert(0, os.path.dirname(os.path.abspath(__file__)))
+
+
+import tls_norm as N  # noqa: E402
 
 
 class ExtractError(Exception):
@@ -112,10 +116,12 @@ def enum_members(cls):
 class Fn:
     """action-list extraction of one handler function"""
 
-    def __init__(self, fdef, alerts):
+    def __init__(self, fdef, alerts, helpers=None, module_globals=()):
         self.f = fdef
         self.name = fdef.name
         self.alerts = alerts
+        self.helpers = helpers or {}       # private methods of Context that may be inlined
+        self.globals = set(module_globals)
         self.steps = []
         self.tests = []          # dicts {name, line, text}
         self.ntest = 0
@@ -124,7 +130,15 @@ class Fn:
         self.scratch = set()     # local Buffer objects
         self.cur = None          # statement being translated
         self.seen_text = {}
-        self.walk(fdef.body, [], False)
+        self.src = [fdef.name]   # function whose source is being walked (handler or inlined helper)
+        self.present = set()     # texts (both orientations) of every `if` test of the handler and the helpers
+        for fd in [fdef] + list(self.helpers.values()):
+            for x in ast.walk(fd):
+                if isinstance(x, ast.If):
+                    t = N.simplify(x.test)
+                    self.present |= {dotted(t), dotted(N.negate(t))}
+        self.inlined = []
+        self.walk_top(fdef.body, [], False)
 
     # -- helpers
     def emit(self, node, cond, act, caught=False):
@@ -133,9 +147,30 @@ class Fn:
         # line of the call / node itself
         st = self.cur if self.cur is not None else node
         self.steps.append({"line": st.lineno, "end": getattr(st, "end_lineno", st.lineno), "at": node.lineno,
-                           "cond": [list(c) for c in cond], "act": act, "caught": caught})
+                           "cond": [list(c) for c in cond], "act": act, "caught": caught, "src": self.src[-1]})
 
-    def new_test(self, node, text, kind="if"):
+    def localish(self, name):
+        import builtins
+        return name != "self" and name not in self.globals and not hasattr(builtins, name)
+
+    def norm_text(self, expr):
+        names = {x.id for x in ast.walk(expr) if isinstance(x, ast.Name) and self.localish(x.id)}
+        return N.alpha_test(expr, names)
+
+    def new_test(self, node, expr, kind="if"):
+        """register the test of an if / loop; returns (name, polarity).  A named test (KNOWN_TESTS) is
+        recognised by its text, by the text of its NEGATION (polarity False: `if x == A: return` and
+        `if x != A: ...` are the same test), and — when its exact text occurs nowhere in the function —
+        by its text up to a renaming of locals, provided that is unambiguous."""
+        text = expr if isinstance(expr, str) else dotted(expr)
+        flipped, name = False, None
+        if not isinstance(expr, str):
+            cands = ((expr, False), (N.negate(expr), True))
+            hit = next(((c, f, dotted(c)) for c, f in cands if self.known_exact(dotted(c))), None)
+            if hit is None:
+                hit = next(((c, f, self.known_renamed(c)) for c, f in cands if self.known_renamed(c) is not None), None)
+            if hit is not None:
+                expr, flipped, text = hit          # canonical orientation and (named) text
         key = (self.name, text)
         occ = self.seen_text.get(key, 0)
         self.seen_text[key] = occ + 1
@@ -146,9 +181,20 @@ class Fn:
         else:
             name = f"{self.name.strip('_')}_{kind}{self.ntest}"
         self.ntest += 1
-        self.tests.append({"name": name, "fn": self.name, "line": node.lineno, "text": text, "kind": kind,
-                           "true_lo": node.body[0].lineno, "true_hi": node.body[-1].end_lineno})
-        return name
+        self.tests.append({"name": name, "fn": self.src[-1], "line": node.lineno, "text": text, "kind": kind,
+                           "flipped": flipped, "true_lo": node.body[0].lineno, "true_hi": node.body[-1].end_lineno})
+        return name, not flipped
+
+    def known_exact(self, text):
+        return any(k[0] == self.name and k[1] == text for k in KNOWN_TESTS)
+
+    def known_renamed(self, expr):
+        """the text of the unique named test of this function that equals `expr` up to local names and
+        whose own text does not occur in the function"""
+        norm = self.norm_text(expr)
+        hits = {k[1] for k in KNOWN_TESTS if k[0] == self.name and k[1] not in self.present
+                and self.norm_text(ast.parse(k[1], mode="eval").body) == norm}
+        return hits.pop() if len(hits) == 1 else None
 
     def alert_of(self, exc):
         """`AlertX(...)` or `AlertX` -> class name"""
@@ -218,6 +264,23 @@ class Fn:
         for st in stmts:
             self.stmt(st, cond, caught)
 
+    def walk_top(self, stmts, cond, caught):
+        """body of a function (handler or inlined helper): an early-return guard `if c: ...; return`
+        is the same as wrapping the rest of the body in `if not c:`; a trailing bare return is dropped"""
+        stmts = list(stmts)
+        while stmts and isinstance(stmts[-1], ast.Return) and stmts[-1].value is None:
+            stmts.pop()
+        for idx, st in enumerate(stmts):
+            if isinstance(st, ast.If) and not st.orelse and st.body and isinstance(st.body[-1], ast.Return) \
+                    and st.body[-1].value is None and not any(isinstance(x, ast.Return) for b in st.body[:-1] for x in ast.walk(b)):
+                t = N.simplify(st.test)
+                self.calls(t, cond, caught)
+                name, pol = self.new_test(st, t)
+                self.walk(st.body[:-1], cond + [(name, pol)], caught)
+                self.walk_top(stmts[idx + 1:], cond + [(name, not pol)], caught)
+                return
+            self.stmt(st, cond, caught)
+
     def stmt(self, st, cond, caught):
         if not isinstance(st, (ast.If, ast.For, ast.Try)) or self.is_check(st):
             self.cur = st
@@ -230,9 +293,49 @@ class Fn:
 
     def is_check(self, st):
         """`if a != b: raise Alert` folded into one verify action"""
-        return (isinstance(st, ast.If) and isinstance(st.test, ast.Compare) and len(st.body) == 1
-                and isinstance(st.body[0], ast.Raise) and not st.orelse
-                and (dotted(st.test.left).endswith(".verify_data") or dotted(st.test.left) == "binder"))
+        return isinstance(st, ast.If) and self.mac_check(st) is not None
+
+    def mac_check(self, st):
+        """(kind, received, expected source, alert) when `st` is `if RECEIVED != EXPECTED: raise Alert`
+        and EXPECTED comes — through locals or `self._expected_verify_data` — from
+        `key_schedule.finished_verify_data(key)`; the operands are identified by data flow, not by name"""
+        t = N.simplify(st.test)
+        if not (isinstance(t, ast.Compare) and len(t.ops) == 1 and isinstance(t.ops[0], ast.NotEq)
+                and len(st.body) == 1 and isinstance(st.body[0], ast.Raise) and not st.orelse):
+            return None
+        alert = self.alert_of(st.body[0].exc)
+        if alert is None:
+            return None
+        sides = [t.left, t.comparators[0]]
+        res = [self.resolve_mac(x) for x in sides]
+        for i in (1, 0):
+            if res[i] is not None:
+                key = dotted(res[i].args[0]) if res[i].args else ""
+                kdef = self.locals_def.get(key)
+                binder = kdef is not None and "res binder" in dotted(kdef)
+                # received value: one level of local resolution, remaining locals alpha-renamed;
+                # expected value: fully resolved
+                recv = N.resolve(sides[1 - i], self.single_defs(), depth=1)
+                names = {x.id for x in ast.walk(recv) if isinstance(x, ast.Name) and x.id in self.locals_def}
+                exp = N.resolve(res[i], self.single_defs())
+                return ("verifyBinder" if binder else "verifyFinished", N.alpha_test(recv, names), dotted(exp), alert)
+        return None
+
+    def resolve_mac(self, expr):
+        v = expr
+        for _ in range(3):
+            if isinstance(v, ast.Name) and v.id in self.locals_def:
+                v = self.locals_def[v.id]
+            elif dotted(v) == "self._expected_verify_data" and dotted(v) in EXPECTED_ATTR:
+                v = EXPECTED_ATTR[dotted(v)]
+            else:
+                break
+        if isinstance(v, ast.Call) and dotted(v.func).endswith(".finished_verify_data"):
+            return v
+        return None
+
+    def single_defs(self):
+        return {k: v for k, v in self.locals_def.items()}
 
     def stmt_(self, st, cond, caught):
         if isinstance(st, ast.Expr) and isinstance(st.value, ast.Constant):
@@ -274,35 +377,31 @@ class Fn:
         bad(st, "statement shape not understood")
 
     def if_(self, st, cond, caught):
-        # `if X.verify_data != E: raise AlertDecryptError` is the Finished check
-        t = st.test
-        if isinstance(t, ast.Compare) and len(t.ops) == 1 and isinstance(t.ops[0], ast.NotEq) \
-                and len(st.body) == 1 and isinstance(st.body[0], ast.Raise) and not st.orelse:
-            left, right = dotted(t.left), dotted(t.comparators[0])
-            alert = self.alert_of(st.body[0].exc)
-            if left.endswith(".verify_data") and alert is not None:
-                src = self.mac_source(right, st)
-                return self.emit(st, cond, {"k": "verifyFinished", "alert": alert, "expected": src, "left": left,
-                                            "test": dotted(t)})
-            if left == "binder" and right == "expected_binder" and alert is not None:
-                src = self.mac_source(right, st)
-                return self.emit(st, cond, {"k": "verifyBinder", "alert": alert, "expected": src, "test": dotted(t)})
+        mc = self.mac_check(st)
+        if mc is not None:
+            kind, recv, src, alert = mc
+            return self.emit(st, cond, {"k": kind, "alert": alert, "expected": src, "left": recv,
+                                        "test": f"{recv} != {src}"})
+        t = N.simplify(st.test)
         self.calls(t, cond, caught)
-        name = self.new_test(st, dotted(t))
-        self.walk(st.body, cond + [(name, True)], caught)
-        if st.orelse:
-            self.walk(st.orelse, cond + [(name, False)], caught)
-
-    def mac_source(self, name, node):
-        """what the Finished / binder comparison is made against: must come from
-        key_schedule.finished_verify_data(<read key>)"""
-        if name in self.locals_def:
-            v = self.locals_def[name]
-        elif name == "self._expected_verify_data":
-            v = EXPECTED_ATTR.get(name)
+        name, pol = self.new_test(st, t)
+        yes, no = cond + [(name, pol)], cond + [(name, not pol)]
+        # `if c: A else: raise E`  ==  `if not c: raise E` ; A     (and the mirror image): the branch
+        # that always raises / returns is a guard, the other one continues at the outer level
+        if st.orelse and N.terminates(st.orelse) and not N.terminates(st.body):
+            self.walk(st.orelse, no, caught)
+            self.walk(st.body, cond, caught)
+        elif st.orelse and N.terminates(st.body) and not N.terminates(st.orelse):
+            self.walk(st.body, yes, caught)
+            self.walk(st.orelse, cond, caught)
         else:
-            v = None
-        if not (isinstance(v, ast.Call) and dotted(v.func).endswith(".finished_verify_data")):
+            self.walk(st.body, yes, caught)
+            if st.orelse:
+                self.walk(st.orelse, no, caught)
+
+    def mac_source(self, name, node):      # kept for callers that resolve by name
+        v = self.resolve_mac(ast.parse(name, mode="eval").body)
+        if v is None:
             bad(node, f"comparison operand {name} is not a finished_verify_data(..) value")
         return dotted(v)
 
@@ -310,7 +409,7 @@ class Fn:
         if st.orelse:
             bad(st, "for/else not understood")
         self.calls(st.iter, cond, caught)
-        name = self.new_test(st, "for " + dotted(st.target) + " in " + dotted(st.iter), "loop")
+        name, _ = self.new_test(st, "for " + dotted(st.target) + " in " + dotted(st.iter), "loop")
         before = len(self.steps)
         self.walk(st.body, cond + [(name, True)], caught)
         for s in self.steps[before:]:
@@ -344,7 +443,7 @@ class Fn:
         for h in st.handlers:
             tid = f"{self.name.strip('_')}_exc{self.ntry}"
             self.ntry += 1
-            self.tests.append({"name": tid, "fn": self.name, "line": h.lineno,
+            self.tests.append({"name": tid, "fn": self.src[-1], "line": h.lineno, "flipped": False,
                                "text": "except " + (dotted(h.type) if h.type is not None else "BaseException"),
                                "kind": "except", "true_lo": h.body[0].lineno, "true_hi": h.body[-1].end_lineno})
             self.in_handler = getattr(self, "in_handler", 0) + 1
@@ -356,7 +455,67 @@ class Fn:
         if st.orelse:
             self.walk(st.orelse, cond + prev, caught)
 
+    def inlinable(self, call):
+        if not isinstance(call, ast.Call):
+            return None
+        m = re.match(r"^self\.(_\w+)$", dotted(call.func))
+        if not m or m.group(1) not in self.helpers:
+            return None
+        return self.helpers[m.group(1)]
+
+    def inline(self, call, target, st, cond, caught):
+        """a private helper of Context called from a handler is walked in place: its actions stay in the
+        handler's ordered list, under the conditions of the call site (parameters replaced by the
+        arguments).  Bounded depth, no recursion; `x = self._h(..)` needs a single trailing `return e`."""
+        h = self.inlinable(call)
+        if h.name in self.src:
+            bad(call, f"recursive helper {h.name}")
+        if len(self.src) > 3:
+            bad(call, "helper calls nested too deep to inline")
+        params = [a.arg for a in h.args.args][1:]
+        if h.args.vararg or h.args.kwarg or h.args.kwonlyargs or len(call.args) > len(params):
+            bad(call, f"call of helper {h.name}: argument shape not understood")
+        mapping = dict(zip(params, call.args))
+        for k in call.keywords:
+            if k.arg is None or k.arg not in params:
+                bad(call, f"call of helper {h.name}: keyword not understood")
+            mapping[k.arg] = k.value
+        defaults = dict(zip(params[len(params) - len(h.args.defaults):], h.args.defaults))
+        for p_ in params:
+            if p_ not in mapping:
+                if p_ not in defaults:
+                    bad(call, f"call of helper {h.name}: missing argument {p_}")
+                mapping[p_] = defaults[p_]
+        reassigned = set(N.assigned_names(h.body)) & set(params)
+        if reassigned:
+            bad(call, f"helper {h.name} assigns its parameter(s) {sorted(reassigned)}")
+        body = [N.substitute(x, mapping) for x in h.body
+                if not (isinstance(x, ast.Expr) and isinstance(x.value, ast.Constant))]
+        for a in call.args + [k.value for k in call.keywords]:
+            self.calls(a, cond, caught)
+        ret = None
+        if target is not None:
+            if not body or not isinstance(body[-1], ast.Return) or body[-1].value is None:
+                bad(call, f"helper {h.name} used for its value must end with a single `return <expr>`")
+            ret, body = body[-1].value, body[:-1]
+        if any(isinstance(x, ast.Return) and x.value is not None for b in body for x in ast.walk(b)):
+            bad(call, f"helper {h.name}: `return <value>` in the middle is not understood")
+        self.src.append(h.name)
+        if h.name not in self.inlined:
+            self.inlined.append(h.name)
+        saved = self.cur
+        try:
+            self.walk_top(body, cond, caught)
+            if ret is not None and not (isinstance(ret, ast.Name) and dotted(ret) == dotted(target)):
+                self.cur = st
+                self.assign([target], ret, st, cond, caught)
+        finally:
+            self.src.pop()
+            self.cur = saved
+
     def assign(self, targets, value, st, cond, caught):
+        if len(targets) == 1 and self.inlinable(value) is not None:
+            return self.inline(value, targets[0], st, cond, caught)
         tnames = [dotted(t) for t in targets]
         # special right-hand sides
         if isinstance(value, ast.Call):
@@ -406,6 +565,8 @@ class Fn:
                 bad(st, "assignment target not understood")
 
     def call_stmt(self, st, c, cond, caught):
+        if self.inlinable(c) is not None:
+            return self.inline(c, None, st, cond, caught)
         name = dotted(c.func)
         args = [dotted(a) for a in c.args]
         if name == "self._set_state":
@@ -461,10 +622,9 @@ class Fn:
             else:
                 bad(st, "update_hash argument not understood")
             return self.emit(st, cond, {"k": "updateHash", "sched": sched, "what": what})
-        if name == "self._server_expect_finished":
-            return self.emit(st, cond, {"k": "call", "fn": "_server_expect_finished"})
-        if name == "self._set_peer_certificate":
-            return self.emit(st, cond, {"k": "call", "fn": "_set_peer_certificate"})
+        hm = re.match(r"^self\.(_\w+)$", name)
+        if hm and HANDLERS.match(hm.group(1)) and hm.group(1) != "_check_certificate_verify_signature":
+            return self.emit(st, cond, {"k": "call", "fn": hm.group(1)})     # another extracted handler
         m = re.match(r"^push_(\w+)$", name)
         if m and m.group(1) in MSG:
             buf = args[0]
@@ -486,74 +646,125 @@ class Fn:
 EXPECTED_ATTR = {}
 
 
-def extract_dispatch(fdef, alerts):
-    """State x HandshakeType -> handler from the if/elif chain"""
+class _Unknown:
+    """a message-type value outside the HandshakeType enum"""
+
+
+def _dispatch_eval(expr, env):
+    """evaluate a dispatch test for a CONCRETE state / message type.  Understood: comparisons
+    (==, !=, in, not in, is, is not) between the state (self.state or a local alias of it), the
+    message type and enum members / tuples, lists, sets of them; and / or / not."""
+    if isinstance(expr, ast.BoolOp):
+        vals = [_dispatch_eval(v, env) for v in expr.values]
+        return all(vals) if isinstance(expr.op, ast.And) else any(vals)
+    if isinstance(expr, ast.UnaryOp) and isinstance(expr.op, ast.Not):
+        return not _dispatch_eval(expr.operand, env)
+    if isinstance(expr, ast.Compare) and len(expr.ops) == 1:
+        l, r = _dispatch_term(expr.left, env), _dispatch_term(expr.comparators[0], env)
+        op = expr.ops[0]
+        if isinstance(op, (ast.Eq, ast.Is)):
+            return l == r
+        if isinstance(op, (ast.NotEq, ast.IsNot)):
+            return l != r
+        if isinstance(op, ast.In):
+            return l in r
+        if isinstance(op, ast.NotIn):
+            return l not in r
+    bad(expr, "dispatch: test not understood")
+
+
+def _dispatch_term(node, env):
+    txt = dotted(node)
+    if txt in env:
+        return env[txt]
+    m = re.match(r"^(State|HandshakeType)\.(\w+)$", txt)
+    if m:
+        return (m.group(1), m.group(2))
+    if isinstance(node, (ast.Tuple, ast.List, ast.Set)):
+        return [_dispatch_term(e, env) for e in node.elts]
+    bad(node, "dispatch: operand not understood")
+
+
+def _dispatch_run(stmts, env):
+    """the effect of a statement block for a concrete (state, type): ('raise', alert) |
+    ('call', handler) | None (falls through)"""
+    for st in stmts:
+        if isinstance(st, ast.Expr) and isinstance(st.value, ast.Constant):
+            continue
+        if isinstance(st, ast.Pass):
+            continue
+        if isinstance(st, ast.If):
+            r = _dispatch_run(st.body if _dispatch_eval(st.test, env) else st.orelse, env)
+            if r is not None:
+                return r
+            continue
+        if isinstance(st, ast.Raise):
+            return ("raise", dotted(st.exc.func if isinstance(st.exc, ast.Call) else st.exc))
+        if isinstance(st, ast.Expr) and isinstance(st.value, ast.Call):
+            hm = re.match(r"^self\.(_\w+)$", dotted(st.value.func))
+            if not hm or not st.value.args or dotted(st.value.args[0]) != "input_buf":
+                bad(st, "dispatch: a branch may only call one handler with the message")
+            return ("call", hm.group(1))
+        bad(st, "dispatch: statement not understood")
+    return None
+
+
+def extract_dispatch(fdef, alerts, enums):
+    """State x HandshakeType -> handler, by evaluating the dispatch code of
+    _handle_reassembled_message for every concrete state and message type (so the shape of the
+    tests — if/else vs guard clauses, == vs != vs membership, a local alias of self.state — does
+    not matter, only the decision taken)"""
     body = [s for s in fdef.body if not (isinstance(s, ast.Expr) and isinstance(s.value, ast.Constant))]
+    aliases = ["self.state"]
+    while body and isinstance(body[0], ast.Assign) and len(body[0].targets) == 1 \
+            and isinstance(body[0].targets[0], ast.Name) and dotted(body[0].value) in aliases:
+        aliases.append(body[0].targets[0].id)          # state = self.state  (read once)
+        body = body[1:]
     if not body or not isinstance(body[0], ast.If):
         bad(fdef, "_handle_reassembled_message does not start with the state dispatch (something runs before it)")
-    table, order = {}, []
-    node = body[0]
-    while True:
-        t = node.test
-        m = re.match(r"^self\.state == State\.(\w+)$", dotted(t))
-        if not m:
-            bad(node, "dispatch: state test shape")
-        state = m.group(1)
-        if state in table:
-            bad(node, "dispatch: state tested twice")
-        table[state] = {}
-        order.append(state)
-        inner = node.body
-        if len(inner) == 1 and isinstance(inner[0], ast.Raise):
-            if dotted(inner[0].exc) != "AlertUnexpectedMessage":
-                bad(inner[0], "dispatch: refusal is not AlertUnexpectedMessage")
-        elif len(inner) == 1 and isinstance(inner[0], ast.If):
-            cur = inner[0]
-            while True:
-                mm = re.match(r"^message_type == HandshakeType\.(\w+)$", dotted(cur.test))
-                if not mm:
-                    bad(cur, "dispatch: message type test shape")
-                if len(cur.body) != 1 or not (isinstance(cur.body[0], ast.Expr) and isinstance(cur.body[0].value, ast.Call)):
-                    bad(cur, "dispatch: branch must be exactly one handler call")
-                call = cur.body[0].value
-                hm = re.match(r"^self\.(_\w+)$", dotted(call.func))
-                if not hm or dotted(call.args[0]) != "input_buf":
-                    bad(cur, "dispatch: handler call shape")
-                if mm.group(1) in table[state]:
-                    bad(cur, "dispatch: type tested twice")
-                table[state][mm.group(1)] = hm.group(1)
-                if len(cur.orelse) == 1 and isinstance(cur.orelse[0], ast.If):
-                    cur = cur.orelse[0]
-                    continue
-                if not (len(cur.orelse) == 1 and isinstance(cur.orelse[0], ast.Raise)
-                        and dotted(cur.orelse[0].exc) == "AlertUnexpectedMessage"):
-                    bad(cur, "dispatch: fall-through is not `raise AlertUnexpectedMessage`")
-                break
-        else:
-            bad(node, "dispatch: state branch shape")
-        if len(node.orelse) == 1 and isinstance(node.orelse[0], ast.If):
-            node = node.orelse[0]
-            continue
-        if node.orelse:
-            bad(node, "dispatch: trailing else on the state chain")
-        break
-    post = [dotted(s) for s in body[1:]]
-    for s in body[1:]:
+    chain = [body[0]]
+    post = body[1:]
+    for s in post:
         if not isinstance(s, ast.Assert):
             bad(s, "statement after the dispatch is not an assert")
-    return table, order, post
+    for x in ast.walk(body[0]):
+        if isinstance(x, (ast.Assign, ast.AugAssign, ast.AnnAssign, ast.For, ast.While, ast.With, ast.Try)):
+            bad(x, "dispatch: statement not understood inside the dispatch")
+    table, order = {}, []
+    types = [n for n, _ in enums["HandshakeType"]]
+    for state, _ in enums["State"]:
+        row, handled = {}, False
+        for t in types + [None]:
+            env = {a: ("State", state) for a in aliases}
+            env["message_type"] = ("HandshakeType", t) if t is not None else _Unknown
+            r = _dispatch_run(chain, env)
+            if r is None:
+                continue                                # state not in the chain (e.g. the start state)
+            handled = True
+            if r[0] == "raise":
+                if r[1] != "AlertUnexpectedMessage":
+                    bad(fdef, f"dispatch: {state} x {t} is refused with {r[1]}, not AlertUnexpectedMessage")
+            elif t is None:
+                bad(fdef, f"dispatch: {state} accepts a message type outside the enum")
+            else:
+                row[t] = r[1]
+        if handled:
+            table[state] = row
+            order.append(state)
+    return table, order, [dotted(s) for s in post]
 
 
+# canonical form (tools/tls_norm.py: locals alpha-renamed v0, v1, ..)
 HANDLE_MESSAGE_SKELETON = [
     "if self.state == State.CLIENT_HANDSHAKE_START:\n    self._client_send_hello(output_buf[Epoch.INITIAL])\n    return",
     "self._receive_buffer += input_data",
     "while len(self._receive_buffer) >= 4:",
-    "message_type = self._receive_buffer[0]",
-    "message_length = 4 + int.from_bytes(self._receive_buffer[1:4], byteorder='big')",
-    "if len(self._receive_buffer) < message_length:\n    break",
-    "message = self._receive_buffer[:message_length]",
-    "self._receive_buffer = self._receive_buffer[message_length:]",
-    "try:\n    self._handle_reassembled_message(message_type=message_type, input_buf=Buffer(data=message), "
+    "v0 = self._receive_buffer[0]",
+    "v1 = 4 + int.from_bytes(self._receive_buffer[1:4], byteorder='big')",
+    "if len(self._receive_buffer) < v1:\n    break",
+    "v2 = self._receive_buffer[:v1]",
+    "self._receive_buffer = self._receive_buffer[v1:]",
+    "try:\n    self._handle_reassembled_message(message_type=v0, input_buf=Buffer(data=v2), "
     "output_buf=output_buf)\nexcept BufferReadError:\n    raise AlertDecodeError('Could not parse TLS message')",
 ]
 
@@ -561,7 +772,7 @@ HANDLE_MESSAGE_SKELETON = [
 def check_handle_message(fdef):
     """handle_message must be: start -> send hello; reassemble; dispatch each
     complete message; BufferReadError -> AlertDecodeError.  Nothing else."""
-    body = [s for s in fdef.body if not (isinstance(s, ast.Expr) and isinstance(s.value, ast.Constant))]
+    body = N.canon_stmts(fdef.body, params=[a.arg for a in fdef.args.args])
     got = []
     for s in body:
         if isinstance(s, ast.While):
@@ -582,8 +793,8 @@ def check_handle_message(fdef):
 
 def check_setup_traffic_protection(fdef):
     first = [s for s in fdef.body if not (isinstance(s, ast.Expr) and isinstance(s.value, ast.Constant))][0]
-    if dotted(first) != "key = self.key_schedule.derive_secret(label)":
-        bad(fdef, "_setup_traffic_protection must start with key = self.key_schedule.derive_secret(label)")
+    if not (isinstance(first, ast.Assign) and dotted(first.value) == "self.key_schedule.derive_secret(label)"):
+        bad(fdef, "_setup_traffic_protection must start by deriving the secret: <key> = self.key_schedule.derive_secret(label)")
     calls = [s for s in fdef.body if isinstance(s, ast.Expr) and isinstance(s.value, ast.Call)
              and dotted(s.value.func) == "self.update_traffic_key_cb"]
     if len(calls) != 1 or [dotted(a) for a in calls[0].value.args[:2]] != ["direction", "epoch"]:
@@ -602,7 +813,7 @@ def check_set_state(fdef):
 
 
 NEGOTIATE_SKELETON = (
-    "if offered is not None:\n    for c in supported:\n        if c in offered:\n            return c\n"
+    "if offered is not None:\n    for v0 in supported:\n        if v0 in offered:\n            return v0\n"
     "if exc is not None:\n    raise exc\nreturn None"
 )
 SENSITIVE = ("self.state", "self._session_resumed")
@@ -653,7 +864,7 @@ def extract(path):
                 tables[tgt.id] = [(k.attr, dotted(v)) for k, v in zip(node.value.keys, node.value.values)]
     if ctx is None:
         raise ExtractError("class Context not found")
-    neg = "\n".join(dotted(s) for s in funcs["negotiate"].body)
+    neg = "\n".join(dotted(s) for s in N.canon_stmts(funcs["negotiate"].body, params=["supported", "offered", "exc"]))
     if neg != NEGOTIATE_SKELETON:
         raise ExtractError("negotiate() changed shape:\n" + neg)
     methods = {m.name: m for m in ctx.body if isinstance(m, ast.FunctionDef)}
@@ -662,16 +873,37 @@ def extract(path):
         for x in ast.walk(m):
             if isinstance(x, ast.Assign) and dotted(x.targets[0]) == "self._expected_verify_data":
                 EXPECTED_ATTR["self._expected_verify_data"] = x.value
-    dispatch, order, post = extract_dispatch(methods["_handle_reassembled_message"], alerts)
+    dispatch, order, post = extract_dispatch(methods["_handle_reassembled_message"], alerts, enums)
     hm = check_handle_message(methods["handle_message"])
     check_setup_traffic_protection(methods["_setup_traffic_protection"])
     check_set_state(methods["_set_state"])
-    fns, tests = {}, []
+    # names bound at module level (imports, classes, functions, constants): not locals
+    module_globals = set()
+    for node in mod.body:
+        if isinstance(node, (ast.Import, ast.ImportFrom)):
+            module_globals |= {(a.asname or a.name).split(".")[0] for a in node.names}
+        elif isinstance(node, (ast.ClassDef, ast.FunctionDef)):
+            module_globals.add(node.name)
+        elif isinstance(node, (ast.Assign, ast.AnnAssign)):
+            for t in (node.targets if isinstance(node, ast.Assign) else [node.target]):
+                if isinstance(t, ast.Name):
+                    module_globals.add(t.id)
+    # private helpers of Context that are inlined where a handler calls them
+    helpers = {n: m for n, m in methods.items()
+               if n.startswith("_") and not n.startswith("__") and not HANDLERS.match(n)
+               and n not in ("_set_state", "_setup_traffic_protection", "_handle_reassembled_message")
+               and "self." + n not in NEUTRAL_NAMES and "self." + n not in EXT_NAMES}
+    fns, tests, inlined = {}, [], {}
     for name, m in methods.items():
         if HANDLERS.match(name):
-            f = Fn(m, set(alerts))
+            f = Fn(m, set(alerts), helpers, module_globals)
             fns[name] = f.steps
             tests += f.tests
+            inlined[name] = f.inlined
+    used_helpers = {h for hs in inlined.values() for h in hs}
+    for name, m in methods.items():
+        if HANDLERS.match(name) or name in used_helpers:
+            continue
         elif name not in ("__init__", "_set_state", "_setup_traffic_protection"):
             for x in ast.walk(m):
                 if isinstance(x, (ast.Assign, ast.AugAssign)):
@@ -760,14 +992,15 @@ def extract(path):
                 flow.append((f"binder.{fn}.expected", st["act"]["expected"]))
                 flow.append((f"binder.{fn}.refuse_if", st["act"]["test"]))
     ks = next(n for n in mod.body if isinstance(n, ast.ClassDef) and n.name == "KeySchedule")
+    ks_methods = {m.name: m for m in ks.body if isinstance(m, ast.FunctionDef)}
     for m in ks.body:
         if isinstance(m, ast.FunctionDef) and m.name in ("certificate_verify_data", "finished_verify_data",
                                                          "derive_secret", "update_hash"):
-            body = [x for x in m.body if not (isinstance(x, ast.Expr) and isinstance(x.value, ast.Constant))]
-            flow.append((f"KeySchedule.{m.name}", "; ".join(dotted(x).replace("\n", " ") for x in body)))
+            # canonical rendering: private expression helpers inlined, single-use temporaries
+            # substituted, remaining locals alpha-renamed (tools/tls_norm.py)
+            flow.append((f"KeySchedule.{m.name}", N.canon_text(m.body, params=[a.arg for a in m.args.args], helpers=ks_methods)))
     stp = methods["_setup_traffic_protection"]
-    flow.append(("_setup_traffic_protection", "; ".join(
-        dotted(x).replace("\n", " ") for x in stp.body if not (isinstance(x, ast.Expr) and isinstance(x.value, ast.Constant)))))
+    flow.append(("_setup_traffic_protection", N.canon_text(stp.body, params=[a.arg for a in stp.args.args], helpers=methods)))
     for slot in ("_enc_key", "_dec_key", "_expected_verify_data"):
         ws = []
         for name, m in methods.items():
@@ -775,7 +1008,7 @@ def extract(path):
                 if isinstance(x, (ast.Assign, ast.AnnAssign)):
                     tg = x.targets if isinstance(x, ast.Assign) else [x.target]
                     if any(dotted(t) == "self." + slot for t in tg) and x.value is not None:
-                        ws.append(f"{name}: {dotted(x.value)}")
+                        ws.append(f"{name}: {dotted(N.resolve(x.value, N.single_defs(m)))}")
         flow.append((f"writers.{slot}", " | ".join(ws)))
     for node in mod.body:
         if isinstance(node, ast.Assign) and isinstance(node.targets[0], ast.Name) \
@@ -821,6 +1054,7 @@ def extract(path):
         "verify_cert_args": vc_args[0], "config_writers": [[a, writers[a]] for a in cfg],
         "source": os.path.relpath(path, os.path.dirname(os.path.dirname(os.path.dirname(path)))),
         "enums": enums, "alerts": alerts, "tables": tables, "defaults": defaults, "consts": consts,
+        "inlined": inlined,
         "dispatch": dispatch, "dispatch_order": order, "post_dispatch": post, "pre_dispatch": [],
         "handle_message": hm, "functions": fns, "tests": tests,
     }
